@@ -138,3 +138,34 @@ def tree(sel: typing.List[typing.Tuple[int, int, int]]) -> bool:
 
 
 MAXK = int(os.environ.get("C11_K", "2"))
+
+
+# ------------------------------------------------------------------------------------------------ referenced == generated, real types
+import pydsdl  # noqa: E402
+
+_NS1 = "/verif/data/ns1/vt"
+_REAL = pydsdl.read_namespace(_NS1, [])
+_EXTS = [None, ".h", ".gen.h", ".a.b.c", ".hpp"]
+
+
+def referenced_paths_are_generated_paths(ext_i: int) -> bool:
+    """
+    pre: 0 <= ext_i < len(_EXTS)
+    post: _
+    """
+    # the same relative path whether a type is generated or merely referenced -- also with an output-extension override with several dots
+    ext = _EXTS[ext_i]
+    b = LanguageContextBuilder(include_experimental_languages=True).set_target_language(LANG)
+    if ext is not None:
+        b.set_target_language_extension(ext)
+    lctx = b.create()
+    lang = lctx.get_target_language()
+    root = build_namespace_tree(_REAL, _NS1, OUT, lctx)
+    outn = pathlib.Path(OUT).as_posix()
+    gen = {t.full_name: p.as_posix()[len(outn) + 1:] for t, p in root.get_all_datatypes()}
+    if not all(p.endswith(lang.extension) for p in gen.values()):
+        return False
+    tB = [t for t in _REAL if t.short_name == "B"][0]
+    incs = IncludeGenerator(lang, tB, True).generate_include_filepart_list(lang.extension, True)
+    refs = sorted(i.strip('"<>') for i in incs if i.strip('"<>').startswith("vt/"))
+    return refs == sorted([gen["vt.A"], gen["vt.sub.C"]])
